@@ -120,6 +120,8 @@ def solve_sat(
     for clause in clauses:
         for lit in clause:
             n_vars = max(n_vars, lit_var(lit))
+    for lit in assumptions:
+        n_vars = max(n_vars, lit_var(lit))  # an assumed variable need not occur in any clause
 
     if n_vars == 0:
         return Result({}, 0, 0, 0)
